@@ -472,6 +472,7 @@ func TestC14Faults(t *testing.T) {
 }
 
 var replayFns = map[string]vlib.ReplayFn{
+	"probe-stale-snapshot": func(json.RawMessage) *vlib.Failure { return vlib.Guard("probe", probeStaleSnapshot) },
 	"faults": func(raw json.RawMessage) *vlib.Failure {
 		var c Case
 		if f := vlib.Decode(raw, &c); f != nil {
